@@ -67,20 +67,31 @@ CHECKS = {
          'modelled. No axioms (Print Assumptions: closed).')),
  'C01': dict(
    design_ref='§6 C01',
-   technique='Coq proof over solver code translated from gr1.py (tie T): returned region = mu-calculus fixpoint; vm_compute correspondence incl. all iterates',
+   technique='Coq proof over solver code translated from gr1.py (tie T): returned region = mu-calculus fixpoint = exact winning region in game terms (determinacy with explicit strategies); vm_compute correspondence incl. all iterates',
    text=('solve_streett_game and _attractor_under_assumptions are translated '
          'from the current gr1.py into Gallina on every run; proved for all '
          'arenas, actions, liveness lists and the four modes: the returned '
          'region equals nu Z. /\\_j mu Y. \\/_k nu X. (P_k /\\ cpre X) \\/ cpre Y '
          '\\/ (R_j /\\ cpre Z) over the exact controllable predecessor of '
          'C11 (each level characterised as least/greatest fixpoint), loops '
-         'terminate by convergence. The game-semantic reading (winning '
-         'strategies over infinite plays) is NOT mechanised: partial. The '
-         'translated model is run against the real solver (region and all '
-         'iterates, both back ends, all bit-range valuations).'),
+         'terminate by convergence; AND the game-semantic statement, both '
+         'directions (determinacy): for non-empty liveness lists the '
+         'returned region holds at a state iff the component has a strategy '
+         '(function of the history; Moore: blind to the next environment '
+         'value) all of whose infinite plays keep its action as long as the '
+         'mode obliges (strict / non-strict stepwise implication) and, if '
+         'the environment keeps its action forever, satisfy persistence-or-'
+         'recurrence; outside the region the environment has a strategy '
+         'that defeats every play (winning strategy from the ranks of the '
+         'fixpoint; environment strategy = Rabin(1) strategy of the dual '
+         'game). The translated model is run against the real solver '
+         '(region and all iterates, both back ends, all bit-range '
+         'valuations).'),
    note=('Trusted: Coq kernel+vm_compute; py2coq translator; dd operations '
-         'modelled by meaning; classical GR(1) theorem linking the fixpoint '
-         'to winning strategies is assumed, not proved. No axioms.')),
+         'modelled by meaning; liveness predicates read at state valuations. '
+         'Axioms: the game-semantic theorems depend on '
+         'Classical_Prop.classic (standard library); the fixpoint theorems '
+         'are closed.')),
  'C03': dict(
    design_ref='§6 C03',
    technique='Coq proof over is_realizable/_make_init translated from gr1.py (tie T) + vm_compute correspondence over 4 qinit x 2 plus_one',
@@ -95,15 +106,22 @@ CHECKS = {
          'theorems (its exactness is C01/C04). No axioms.')),
  'C04': dict(
    design_ref='§6 C04',
-   technique='Coq proof: translated Rabin solver = mu-calculus fixpoint; Streett/Rabin duality theorem via complement-swap bijection; correspondence + real-code duality check',
+   technique='Coq proof: translated Rabin solver = mu-calculus fixpoint = exact winning region in game terms (explicit strategies, determinacy); Streett/Rabin duality both ways via complement-swap bijection; correspondence + real-code duality check',
    text=('solve_rabin_game/_cycle_inside/_attractor_inside translated every '
          'run; proved for all arenas and modes: last iterate = mu Z. \\/_k nu '
          'Y. /\\_j mu X. (cpre X \\/ R_j) /\\ cpre Y /\\ (cpre Z \\/ P_k); and the '
          'full duality: the Streett(1) region (spec and generated solver) is '
          'the complement of the opponent Rabin(1) region for complemented '
-         'liveness, swapped roles, Moore<->Mealy, strict<->non-strict. '
-         'Game-semantic reading not mechanised (partial).'),
-   note='Trusted: as C01. No axioms.'),
+         'liveness, swapped roles, Moore<->Mealy, strict<->non-strict, and '
+         'its converse (complement of the Rabin(1) region = opponent '
+         'Streett(1) region); AND the game-semantic statement, both '
+         'directions: the last iterate holds at a state iff the component '
+         'has a strategy all of whose plays keep its action as the mode '
+         'obliges and satisfy persistence-and-recurrence when the '
+         'environment keeps its action; outside, the environment has a '
+         'strategy defeating every play.'),
+   note=('Trusted: as C01. Axioms: the game-semantic theorems depend on '
+         'Classical_Prop.classic; fixpoint and duality theorems are closed.')),
  'C02': dict(
    design_ref='§6 C02',
    technique='Coq proofs about make_streett_transducer translated from gr1.py on every run (tie T; proved equal to a structured model) + exhaustive truth-table correspondence for the memory layout and refusals + closed-loop search',
